@@ -56,27 +56,27 @@ type vProbeCase struct {
 }
 
 type vProbeLine struct {
-	Ev   string `json:"ev"`
-	Case int    `json:"case"`
-	Kind string `json:"kind"`
+	Ev   string     `json:"ev"`
+	Case int        `json:"case"`
+	Kind string     `json:"kind"`
 	S    vProbeScen `json:"s"`
 	R    vRelayScen `json:"r"`
 	// prober role
-	Suspect    bool `json:"suspect"`
-	Delta      int  `json:"delta"`      // sum of the health deltas applied during the probe
-	ScoreAfter int  `json:"scoreAfter"` // health score at quiescence
-	Handlers   int  `json:"handlers"`   // pending-probe records at quiescence
-	Returned   bool `json:"returned"`   // probeNode returned
-	TookMs     int64 `json:"tookMs"`
-	AskedRelays int `json:"askedRelays"`
+	Suspect     bool  `json:"suspect"`
+	Delta       int   `json:"delta"`      // sum of the health deltas applied during the probe
+	ScoreAfter  int   `json:"scoreAfter"` // health score at quiescence
+	Handlers    int   `json:"handlers"`   // pending-probe records at quiescence
+	Returned    bool  `json:"returned"`   // probeNode returned
+	TookMs      int64 `json:"tookMs"`
+	AskedRelays int   `json:"askedRelays"`
 	// relay role
-	FreshSeq    bool `json:"freshSeq"`
-	PingsToTarget int `json:"pingsToTarget"`
-	RelayedAcks int  `json:"relayedAcks"`
-	RelayedSeqOk bool `json:"relayedSeqOk"`
-	Nacks       int  `json:"nacks"`
-	NackSeqOk   bool `json:"nackSeqOk"`
-	Note        string `json:"note"`
+	FreshSeq      bool   `json:"freshSeq"`
+	PingsToTarget int    `json:"pingsToTarget"`
+	RelayedAcks   int    `json:"relayedAcks"`
+	RelayedSeqOk  bool   `json:"relayedSeqOk"`
+	Nacks         int    `json:"nacks"`
+	NackSeqOk     bool   `json:"nackSeqOk"`
+	Note          string `json:"note"`
 }
 
 const (
